@@ -351,6 +351,81 @@ func c16LibMarkers(ms []string) []string {
 
 const c16Batch = 64
 
+// c16LibMarkersBacktrack evaluates markers as guards on a holder that is requested with extra x, pinned, given up when
+// a later pin fails and re-pinned at another version: r -> a[x], b; a@2.0 -> c!=1.0; a@1.0 -> c==1.0; b@2.0 -> c==1.0;
+// both versions of a carry the guarded requirements. The answer is whether the edge from the final a@1.0 exists.
+func c16LibMarkersBacktrack(ms []string) []string {
+	rows := make([]string, len(ms))
+	var eval func(lo, hi int)
+	eval = func(lo, hi int) {
+		if lo >= hi {
+			return
+		}
+		u := univ.Universe{Sys: "PyPI"}
+		u.Vers = append(u.Vers, univ.Ver{Pkg: "r", Ver: "1", Reqs: []univ.Req{{Pkg: "a", Ver: "", Extras: "x"}, {Pkg: "b", Ver: ""}}})
+		a2 := univ.Ver{Pkg: "a", Ver: "2.0", Reqs: []univ.Req{{Pkg: "c", Ver: "!=1.0"}}}
+		a1 := univ.Ver{Pkg: "a", Ver: "1.0", Reqs: []univ.Req{{Pkg: "c", Ver: "==1.0"}}}
+		for i := lo; i < hi; i++ {
+			g := univ.Req{Pkg: fmt.Sprintf("m%d", i), Ver: "", Env: ms[i]}
+			a2.Reqs = append(a2.Reqs, g)
+			a1.Reqs = append(a1.Reqs, g)
+			u.Vers = append(u.Vers, univ.Ver{Pkg: g.Pkg, Ver: "1"})
+		}
+		u.Vers = append(u.Vers, a1, a2, univ.Ver{Pkg: "b", Ver: "2.0", Reqs: []univ.Req{{Pkg: "c", Ver: "==1.0"}}}, univ.Ver{Pkg: "c", Ver: "1.0"}, univ.Ver{Pkg: "c", Ver: "2.0"})
+		g, err := pypires.NewResolver(u.Client(nil)).Resolve(ctxBG, u.VK("r", "1"))
+		bad := err != nil || g == nil || g.Error != ""
+		pinned := ""
+		if !bad {
+			for _, n := range g.Nodes {
+				if len(n.Errors) > 0 {
+					bad = true
+				}
+				if n.Version.Name == "a" {
+					pinned = n.Version.Version
+				}
+			}
+		}
+		if bad || pinned != "1.0" {
+			if hi-lo == 1 {
+				rows[lo] = "ERR"
+				return
+			}
+			mid := (lo + hi) / 2
+			eval(lo, mid)
+			eval(mid, hi)
+			return
+		}
+		present := map[string]bool{}
+		for _, n := range g.Nodes {
+			present[n.Version.Name] = true
+		}
+		for i := lo; i < hi; i++ {
+			if present[fmt.Sprintf("m%d", i)] {
+				rows[i] = "1"
+			} else {
+				rows[i] = "0"
+			}
+		}
+	}
+	n := (len(ms) + c16Batch - 1) / c16Batch
+	core.ParFor(n, func(b int) {
+		hi := (b + 1) * c16Batch
+		if hi > len(ms) {
+			hi = len(ms)
+		}
+		eval(b*c16Batch, hi)
+	})
+	return rows
+}
+
+func c16JudgeMarkerBacktrack(m, want string) (bool, string) {
+	got := c16LibMarkersBacktrack([]string{m})[0]
+	if len(want) < 2 || got == string(want[1]) {
+		return true, got
+	}
+	return false, fmt.Sprintf("marker %q on a holder re-pinned after backtracking (requested with extra x): guarded edge followed = %s, packaging evaluates %c", m, got, want[1])
+}
+
 // c16JudgeMarkerBatch replays a marker inside the batch it was evaluated with.
 func c16JudgeMarkerBatch(m, want, ctx string) (bool, string) {
 	var ms []string
@@ -477,6 +552,23 @@ func C16(tier string) {
 			}
 		}
 	}
+	// the same markers on a holder that is re-pinned after a backtrack (only those the flat universe got right)
+	var btIdx []int
+	var btMs []string
+	for i, m := range ms {
+		if lib[i] == mt.Rows[i] && len(lib[i]) == len(c16Extras) {
+			btIdx = append(btIdx, i)
+			btMs = append(btMs, m)
+		}
+	}
+	var mBacktrack int64
+	for k, got := range c16LibMarkersBacktrack(btMs) {
+		want := mt.Rows[btIdx[k]]
+		mBacktrack++
+		if got != string(want[1]) {
+			run.Fail(core.Join("marker-backtrack", btMs[k], want), fmt.Sprintf("marker %q on a holder re-pinned after backtracking (requested with extra x): guarded edge followed = %s, packaging evaluates %c", btMs[k], got, want[1]))
+		}
+	}
 	for o := range outcomes {
 		run.Outcome("marker row " + o)
 	}
@@ -488,7 +580,7 @@ func C16(tier string) {
 	run.Cov["requirement_strings"] = map[string]any{"reference": rt.Tool, "alt_reference": rt.AltTool, "strings": len(strs), "accepted_by_packaging": reqValid, "undecided_reference_drift": reqDrift, "disagreeing": reqBad}
 	run.Cov["names"] = map[string]any{"reference": nt.Tool, "names": len(names), "canonical_classes": len(classes)}
 	run.Cov["markers"] = map[string]any{"reference": mt.Tool, "alt_reference": mt.AltTool, "markers": len(ms), "accepted_by_packaging": mValid, "undecided_reference_drift": mDrift, "reference_raises_on_evaluation": mUndef, "true_for_some_extras": mTrue,
-		"library_resolution_errors": mLibErr, "disagreeing": mBad, "extras_columns": c16Extras, "environment": env}
+		"library_resolution_errors": mLibErr, "re_evaluated_after_backtracking": mBacktrack, "disagreeing": mBad, "extras_columns": c16Extras, "environment": env}
 	run.Sample(map[string]any{"requirement": strs[len(strs)/2], "packaging": rt.Rows[len(strs)/2]})
 	run.Sample(map[string]any{"marker": ms[len(ms)/3], "packaging": mt.Rows[len(ms)/3], "library": lib[len(ms)/3]})
 	run.Cov["explanation"] = "states = domain strings; transitions = comparisons made; traces_validated_against_impl = rows computed by live packaging in this run (thorough)"
@@ -505,6 +597,8 @@ func c16Replay(w string) (bool, string) {
 		return c16JudgeName(p[1], p[2])
 	case "marker":
 		return c16JudgeMarker(p[1], p[2])
+	case "marker-backtrack":
+		return c16JudgeMarkerBacktrack(p[1], p[2])
 	case "marker-batch":
 		return c16JudgeMarkerBatch(p[1], p[2], p[3])
 	}
